@@ -9,13 +9,17 @@
    [C08_rules_next2], up to permutation).  Other programs with next_rule are compared with the faithful model and the Spec; the class
    [later_ref_next] (reading not settled by the property text) with the model only.  All former defects (C08-a..h) are
    regression theorems.
+   next_rule ANYWHERE ([C08_rules_next_all]): every program outside the unsettled class [later_ref_next], as a SET of
+   instances; evaluation of EVERY tree ([C08_ruleeval_all], [C08_ruleeval2_all]): rows of Next / the join as sequences.
    Two variables (Eql/RuleSpec2.v [rdr2], Eql/RuleEval2.v [run2]): [C08_rules2] -- next_rule-free programs over a
    connection c and a body b joined by one refinement `b == c.parent`, conclusions over c, b or both; the inferred
    instances agree with the Spec as a SET (bodies shared by several connections are inferred once). *)
 From Coq Require Import List ZArith Bool Arith Permutation.
 From Krrood Require Import Eql.RuleSpec Eql.RuleEval Eql.RuleBuild Eql.RulePure Eql.RuleEvalProofs Eql.RuleSpecProofs Eql.RuleProofs
   Eql.RuleNextProofs Eql.RuleNextSpecProofs Eql.RuleBuildProofs Eql.RuleBuildAll Eql.RuleNextTreeProofs
-  Eql.RuleNextTreeSpecProofs Eql.RuleSpec2 Eql.RuleEval2 Eql.RuleEval2Proofs Eql.RuleEval2RootProofs Eql.RuleEval2SpecProofs.
+  Eql.RuleNextTreeSpecProofs Eql.RuleSpec2 Eql.RuleEval2 Eql.RuleEval2Proofs Eql.RuleEval2RootProofs Eql.RuleEval2SpecProofs
+  Eql.RuleEval2MultiProofs Eql.RuleEval2MultiRootProofs Eql.RuleMultiProofs Eql.RuleMultiRootProofs Eql.RuleMultiPure
+  Eql.RuleMultiSpecProofs.
 Import ListNotations.
 
 (* construction, for EVERY rule program of the grammar (any nesting, any number of siblings, any conditions and
@@ -46,6 +50,43 @@ Proof. exact rules_next_ok. Qed.
 Theorem C08_rules_next2 : forall prog, Fb_next2 prog = true -> forall W,
   exists rows xs, model prog W = Some rows /\ singles rows = Some xs /\ Permutation xs (rdr prog W).
 Proof. exact rules_next2_ok. Qed.
+
+(* next_rule ANYWHERE: nested in a branch or in a refinement's block, not last, several of them, with alternatives /
+   next_rules / refinements in its own block.  For EVERY one-variable program outside the class [later_ref_next] (a
+   next_rule in the level of a refinement that is not the first refinement of its rule: reading not settled by the
+   property text, see [C08_unsettled_reading]), any conditions, conclusions and domain: the instances inferred by the
+   run of the built query are, as a SET, the Spec's.  (A set, because the root selector infers an instance once when
+   two branches conclude the same for one element; the ordered / counted statements are [C08_rules],
+   [C08_rules_next], [C08_rules_next2].) *)
+Theorem C08_rules_next_all : forall prog, later_ref_next prog = false -> forall W,
+  exists rows, model prog W = Some rows /\ forall x, In x (insts1 rows) <-> In x (rdr prog W).
+Proof. exact rules_next_all. Qed.
+
+(* evaluation of EVERY tree with pairwise distinct nodes (any nesting of ExceptIf / ElseIf / Next, Next evaluated with x
+   bound yielding up to two rows per row of its operands): the instances of the run are those of the true rows of the
+   pure multi-row reading [pes1] over the whole domain *)
+Theorem C08_ruleeval_all : forall W t, NoDup (ids t) ->
+  forall x, In x (insts1 (run W t)) <-> In x (insts1 (trows1 (pes1 W t None))).
+Proof. exact run_all. Qed.
+
+(* ... the rows of one element summarised: [fires] / [Tg] (ExceptIf: the exception's conclusions if it fires, else the
+   base's; ElseIf: the first operand that fires; Next: both) ... *)
+Theorem C08_rows_summary : forall W t ie,
+  pes1 W t (Some ie) <> [] /\
+  (forall y, In y (pes1 W t (Some ie)) -> snd y = ie /\ fst (fst y) = negb (fires t (snd ie))) /\
+  (forall tg, In tg (Tg t (snd ie)) <->
+              exists y, In y (pes1 W t (Some ie)) /\ RuleMultiProofs.rtrue y = true /\ In tg (snd (fst y))).
+Proof. exact summ_all. Qed.
+
+(* ... and that summary of the written tree is the Spec's interpreter, per element, as a set of conclusions *)
+Theorem C08_tree_is_rdr_next : forall prog e, later_ref_next prog = false ->
+  forall tg, In tg (rdr1 prog e) <-> In tg (Tg (tree_of prog) e).
+Proof. exact tree_is_rdr_next. Qed.
+
+(* the same evaluation theorem for the two-variable evaluator: EVERY tree (the join anywhere, Next anywhere) *)
+Theorem C08_ruleeval2_all : forall selof Cs Bs t, NoDup (ids t) ->
+  forall x, In x (insts selof (run2 selof Cs Bs t)) <-> In x (insts selof (trows (pes2 Cs Bs t None))).
+Proof. exact run2_all. Qed.
 
 (* TWO variables: c ranges over connections (k, parent), b over bodies (a).  Fragment [F2b]: no next_rule; one refinement J
    starts with the join `b == c.parent` and carries only refinements in its own block; outside J conditions read c and
@@ -152,6 +193,17 @@ Example C08_rules2_nonvacuous :
   = Some [(1, None, Some 0); (2, Some 1, Some 0); (0, Some 2, None)].
 Proof. exact rules2_nonvacuous. Qed.
 
+(* [C08_rules_next_all] reaches programs outside every earlier fragment *)
+Example C08_next_all_nonvacuous :
+  later_ref_next w_next_nested = false /\ Fx w_next_nested = false /\
+  rdr w_next_nested W8n
+  = [(3, 0); (3, 1); (1, 2); (3, 2); (1, 3); (2, 3); (3, 3); (1, 4); (2, 4); (3, 4); (1, 5); (2, 5); (4, 5);
+     (1, 6); (2, 6); (6, 6); (4, 7)] /\
+  option_map insts1 (model w_next_nested W8n)
+  = Some [(3, 0); (3, 1); (1, 2); (3, 2); (1, 3); (2, 3); (3, 3); (1, 4); (2, 4); (3, 4); (1, 5); (2, 5);
+          (1, 6); (2, 6); (4, 7); (4, 5); (6, 6)].
+Proof. exact next_all_nonvacuous. Qed.
+
 Example C08_nonvacuous2 :
   Fb_next2 w_next_ref = true /\ Fb_next w_next_ref = false /\
   rdr w_next_ref W8 = [(0, 0); (1, 1); (0, 2); (2, 2); (0, 3); (3, 3); (2, 4); (2, 5); (2, 6); (2, 7)].
@@ -168,6 +220,11 @@ Print Assumptions C08_build_all.
 Print Assumptions C08_rules.
 Print Assumptions C08_rules_next.
 Print Assumptions C08_rules_next2.
+Print Assumptions C08_rules_next_all.
+Print Assumptions C08_ruleeval_all.
+Print Assumptions C08_rows_summary.
+Print Assumptions C08_tree_is_rdr_next.
+Print Assumptions C08_ruleeval2_all.
 Print Assumptions C08_rules2.
 Print Assumptions C08_ruleeval2_ok.
 Print Assumptions C08_ruleeval_root_next.
